@@ -91,10 +91,15 @@ Theorem c10_coverage_SAM : forall n U, gn_SAM0 n (gn_coverage n U).
 Proof. exact gn_coverage_SAM. Qed.
 Print Assumptions c10_coverage_SAM.
 
-(* ---- oxs: one min-convolution (_apply_or, including its initial zeros) preserves the class ... *)
+(* ---- oxs: one min-convolution (what _apply_or leaves in each cell, including the initial zero) preserves the class ... *)
 Theorem c10_apply_or_SAM : forall n v1 v2, gn_SAM0 n v1 -> gn_SAM0 n v2 -> gn_SAM0 n (gn_apply_or_cell n v1 v2).
 Proof. exact gn_apply_or_cell_SAM0. Qed.
 Print Assumptions c10_apply_or_SAM.
+(* ... the loop-for-loop model of _apply_or (zeros array, for S, for T disjoint from S, in-place min) computes that in every cell ... *)
+Theorem c10_apply_or_loop : forall n t1 t2 U, bounded n U ->
+  gn_get (gn_apply_or n t1 t2) U == gn_apply_or_cell n (gn_get t1) (gn_get t2) U.
+Proof. exact gn_apply_or_get. Qed.
+Print Assumptions c10_apply_or_loop.
 (* ... hence the fold `xs_values.pop()` then the rest, with the final normalisation, for every list of XS functions *)
 Theorem c10_oxs_SAM : forall n ss normalize t,
   gn_oxs n ss normalize = Some t -> gn_SAM0 n (gn_get t) /\ length t = (2 ^ n)%nat.
